@@ -84,6 +84,10 @@ type State struct {
 	tx            *tx.Tx         //未确认交易表
 	ldb           kvdb.Database
 	latestBlockid []byte
+	// latestBlockid is written by block play / walk under utxo.Mutex and read without that lock by
+	// the tip accessors (the access-control manager reads rules through the tip snapshot while it
+	// verifies a submitted transaction, the engine asks GetLatestBlockid): those go through tipMu
+	tipMu sync.RWMutex
 
 	// 最新区块高度通知装置
 	heightNotifier *BlockHeightNotifier
@@ -191,6 +195,8 @@ func (t *State) GetUnconfirmedTx(dedup bool) ([]*pb.Transaction, error) {
 }
 
 func (t *State) GetLatestBlockid() []byte {
+	t.tipMu.RLock()
+	defer t.tipMu.RUnlock()
 	return t.latestBlockid
 }
 
@@ -378,7 +384,7 @@ func (t *State) CreateSnapshot(blkId []byte) (kledger.XMReader, error) {
 
 // 获取最新确认高度快照（Select方法不可用）
 func (t *State) GetTipSnapshot() (kledger.XMReader, error) {
-	return t.CreateSnapshot(t.latestBlockid)
+	return t.CreateSnapshot(t.GetLatestBlockid())
 }
 
 // 根据指定blockid创建快照（相比XMReader，只有Get方法，直接返回[]byte）
@@ -388,7 +394,7 @@ func (t *State) CreateXMSnapshotReader(blkId []byte) (kledger.XMSnapshotReader, 
 
 // 获取状态机最新确认高度快照（相比XMReader，只有Get方法，直接返回[]byte）
 func (t *State) GetTipXMSnapshotReader() (kledger.XMSnapshotReader, error) {
-	return t.CreateXMSnapshotReader(t.latestBlockid)
+	return t.CreateXMSnapshotReader(t.GetLatestBlockid())
 }
 
 func (t *State) BucketCacheDelete(bucket, version string) {
@@ -1179,7 +1185,9 @@ func (t *State) updateLatestBlockid(newBlockid []byte, batch kvdb.Batch, reason 
 		t.log.Warn(reason, "writeErr", writeErr)
 		return writeErr
 	}
+	t.tipMu.Lock()
 	t.latestBlockid = newBlockid
+	t.tipMu.Unlock()
 	// the per-batch version cache of xmodel is only valid while this block's batch is being
 	// built; pool admissions after the block must read the stored versions again
 	t.xmodel.CleanCache()
